@@ -63,6 +63,33 @@ def _shrink(parser, a64gen, a64canon, ast):
     return cur, best[0], best[1]
 
 
+def _run_file(parser, a64canon, rows, start):
+    content = "\n".join(t for t, _ in rows)
+    want = [(i + 1 + start, t, w) for i, (t, w) in enumerate(rows) if w is not None]
+    try:
+        forms = parser.parse_file(content, start)
+        got = [(f.line_number, f.line, " ".join(a64canon.form(f))) for f in forms]
+    except Exception as e:  # noqa
+        got = "exception %s: %s" % (type(e).__name__, str(e)[:120])
+    return content, want, got
+
+
+def _shrink_file(parser, a64canon, rows, start):
+    """greedy: drop rows while parse_file still differs from the file as written"""
+    cur = list(rows)
+    content, want, got = _run_file(parser, a64canon, cur, start)
+    changed = True
+    while changed and len(cur) > 1:
+        changed = False
+        for i in range(len(cur)):
+            c = cur[:i] + cur[i + 1:]
+            content2, want2, got2 = _run_file(parser, a64canon, c, start)
+            if got2 != want2:
+                cur, content, want, got, changed = c, content2, want2, got2, True
+                break
+    return cur, content, want, got
+
+
 def _kind_hist(ast, hist):
     for o in ast["ops"]:
         k = o["k"]
@@ -203,12 +230,14 @@ def run(ctx):
         if got != want:
             n_oracle += 1
             if n_oracle <= 3:
-                detail = got
-                if isinstance(got, list):
-                    detail = [(g, w) for g, w in zip(got, want) if g != w][:2] or {"n_got": len(got), "n_want": len(want)}
-                ctx.violation("parse_file: line numbers / texts / classes differ from the file as written: %s" % (detail,),
-                              {"kind": "file", "content": content, "start": start,
-                               "expected": want, "observed": got})
+                rows2, content2, want2, got2 = _shrink_file(parser, a64canon, rows, start)
+                detail = got2
+                if isinstance(got2, list):
+                    detail = [(g, w) for g, w in zip(got2, want2) if g != w][:2] or {"n_got": len(got2), "n_want": len(want2)}
+                ctx.violation("parse_file(start_line=%d) of %r: line numbers / texts / classes differ from the file as "
+                              "written: %s" % (start, content2[:200], str(detail)[:400]),
+                              {"kind": "file", "content": content2, "start": start,
+                               "expected": want2, "observed": got2, "original_content": content})
         file_reqs.append("a64file %s %d" % (esc(content), start))
         file_meta.append((content, start, got))
     model = ctx.driver.ask(file_reqs)
